@@ -69,7 +69,10 @@ func loadPlan() {
 	case strings.HasPrefix(p, "crash@"):
 		planKind = "crash"
 		planK, _ = strconv.ParseInt(strings.TrimPrefix(p, "crash@"), 10, 64)
-	case strings.HasPrefix(p, "crashop@"), strings.HasPrefix(p, "tearafter@"):
+	case strings.HasPrefix(p, "crashop@"), strings.HasPrefix(p, "tearafter@"), strings.HasPrefix(p, "pauseop@"):
+		// pauseop@i:<op> <path>   : before the i-th occurrence of that operation create $VOS_PAUSE_DIR/reached and wait
+		//                           until $VOS_PAUSE_DIR/go exists (cross-process scheduling by operation identity)
+		pauseDir = os.Getenv("VOS_PAUSE_DIR")
 		// crashop@i:<op> <path>   : SIGKILL immediately before the i-th occurrence of that operation (paths with the
 		//                           directory VOS_NORM replaced by "@"), whatever its number in this run
 		// tearafter@i:<op> <path> : let the i-th occurrence of that file-creating operation happen, then, at the next
@@ -108,7 +111,7 @@ func step(op, path string) error {
 		traceMu.Unlock()
 	}
 	switch planKind {
-	case "crashop", "tearafter":
+	case "crashop", "tearafter", "pauseop":
 		traceMu.Lock()
 		if tearPath != "" {
 			if fi, err := os.Lstat(tearPath); err == nil && fi.Mode().IsRegular() && fi.Size() >= 2 {
@@ -131,6 +134,16 @@ func step(op, path string) error {
 			hit = false
 		}
 		traceMu.Unlock()
+		if hit && planKind == "pauseop" {
+			os.WriteFile(pauseDir+"/reached", []byte(fmt.Sprintf("%d %s %s\n", n, op, path)), 0o644)
+			for {
+				if _, err := os.Stat(pauseDir + "/go"); err == nil {
+					break
+				}
+				time.Sleep(2 * time.Millisecond)
+			}
+			hit = false
+		}
 		if hit {
 			syscall.Kill(os.Getpid(), syscall.SIGKILL)
 			select {} // never proceed to the operation
